@@ -134,10 +134,31 @@ class Tracer:
         if r == 'ref' or r == 'rawptr':
             q = rv['place']
             return self._origin_place(q['l'], list(q['p']) + ['ref'] + p, depth + 1)
-        if r == 'cast' and rv.get('kind', '').startswith(('PointerCoercion', 'Transmute', 'PtrToPtr')):
+        if r == 'cast' and rv.get('kind', '').startswith(('PointerCoercion', 'Transmute', 'PtrToPtr', 'Subtype')):
             a = rv['a']
             if a.get('k') != 'const':
                 return self._origin_place(a['l'], list(a['p']) + p, depth + 1)
+        if r == 'aggr' and rv.get('agg') in ('tuple', 'adt', 'array', 'closure'):
+            q = _norm_proj(p)
+            # descend into the aggregate's component selected by the leading field projection
+            i = 0
+            if q and isinstance(q[0], dict) and 'downcast' in q[0]:
+                if rv.get('agg') == 'adt' and rv.get('vi') == q[0].get('vi'):
+                    i = 1
+                else:
+                    i = None
+            if i is not None and len(q) > i and isinstance(q[i], dict) and 'f' in q[i]:
+                fi = q[i]['f']
+                ops = rv['ops']
+                if rv.get('agg') == 'adt' and len(rv.get('fields', [])) == 1 and len(ops) == 1 and rv.get('fields') and \
+                        len(rv['fields']) != len(ops):
+                    pass
+                if fi < len(ops):
+                    a = ops[fi]
+                    rest = q[i + 1:]
+                    if a.get('k') == 'const':
+                        return {'o': 'const', 'c': a, 'p': rest}
+                    return self._origin_place(a['l'], list(a['p']) + rest, depth + 1)
         return {'o': 'rvalue', 'rv': rv, 'bb': bi, 'si': si, 'p': _norm_proj(p), 'l': l}
 
     def root_local(self, op):
